@@ -365,7 +365,9 @@ def _apply_oracles(obs, case, spec, flat, cfg, task, before_cfg, before_task, mo
             # documented function of the reported cost: 1/(1+c) for c>=0, 1+|c| for c<0 (calculate_fitness undoes the
             # internal negation of max tasks, so it is the same function of the user's cost in both directions)
             cands = [fitness_of(cost)]
-            if not any(close(a.fitness, c, 1e-12) for c in cands) and "fitness" not in c02_seen:
+            # an objective that hands back float32 values makes the library compute the fitness in float32 arithmetic
+            ftol = 1e-6 if spec.get("ret") == "np32" else 1e-12
+            if not any(close(a.fitness, c, ftol) for c in cands) and "fitness" not in c02_seen:
                 c02_seen.add("fitness")
                 _v(obs, "C02", {"kind": "fitness-mismatch"},
                    f"generation {g}: cost {cost!r} fitness {a.fitness!r}, documented value {cands}")
